@@ -380,8 +380,9 @@ func c19EvalDoc(t *fw.T, c *fw.Case) {
 	input := fw.Short(d.Files[d.Root], 700)
 	if c.Meta["undeclared"] == "true" {
 		t.Count("undeclared_tag_documents")
-		if o.Outcome != run.Rejected || !strings.Contains(o.Msg, "tag not found") {
-			t.Violation("undeclared-tag-accepted", fmt.Sprintf("a Tags directive names an undeclared tag, expected a 'tag not found' rejection, got %s; input %s", describe(o), input))
+		// (the statement asks for a rejection, not for a wording)
+		if o.Outcome != run.Rejected || run.RuntimeFaultText(o.ErrText) {
+			t.Violation("undeclared-tag-accepted", fmt.Sprintf("a Tags directive names an undeclared tag, expected a rejection, got %s; input %s", describe(o), input))
 		}
 		return
 	}
